@@ -12,7 +12,7 @@ def status(r):
         return '**missed -> strengthened**'
     if h.startswith('MISSED by the check as it stood'):
         return '**missed -> extended on reading the report**'
-    if h.startswith('MISSED') or h.startswith('missed by the check as it stood (fourth') or h.startswith('missed by the check as it stood (fifth'):
+    if h.startswith('MISSED') or h.startswith('missed by the check as it stood (fourth') or h.startswith('missed by the check as it stood (fifth') or h.startswith('missed by the check as it stood (sixth'):
         return '**missed -> strengthened**'
     if h.startswith('C02 caught it as it stood'):
         return 'caught by C02; owning check **missed -> strengthened**'
@@ -26,7 +26,7 @@ L = ['### 10.4 Seeded breakages (independent sub-agents) and which checks catch 
      'demonstration exits 0 on the unmodified tree and non-zero with the change, and the listed checks were run against the changed',
      'tree through `VERIF_REPO`. They are stored under `seeded/<id>/` (patch.diff, demo.py, notes.md, meta.json with the full history).', '',
      '| seed | breaks | needs | caught by (signature) | check as it stood |', '|---|---|---|---|---|']
-for k in sorted(T):
+for k in sorted(T, key=lambda x: (x.split('-')[0], int(x.split('-')[1]))):
     r = T[k]
     cb = '; '.join('%s (%s)' % (c, s) for c, s in r['caught_by'])
     L.append('| %s | %s | %s | %s | %s |' % (k, r['breaks'].replace('|', '/'), r['needs'].replace('|', '/'), cb.replace('|', '/'), status(r)))
